@@ -634,7 +634,7 @@ type real struct {
 func newLocalReal() *real {
 	return &real{clients: map[string]*lobj{}, hist: map[string][]uint64{}, creates: map[string]int{},
 		auto: map[string]string{}, autoRev: map[string]string{}, cur: map[string]uint64{}, evHist: map[string]string{},
-		deadline: 400 * time.Millisecond}
+		deadline: 2500 * time.Millisecond}
 }
 
 func (r *real) Close() {
@@ -948,7 +948,14 @@ func (r *real) settled() bool {
 }
 
 // waitQuiet polls until the watchers are settled and no event has arrived for a while, or the deadline passes.
+// The deadline is generous (a loaded machine delays goroutines by hundreds of milliseconds); once a wait of a
+// case has run into it the store is taken to be stalled and the later waits of that case are short.
 func (r *real) waitQuiet() {
+	defer func(start time.Time) {
+		if time.Since(start) >= r.deadline {
+			r.deadline = 150 * time.Millisecond
+		}
+	}(time.Now())
 	deadline := time.Now().Add(r.deadline)
 	var since time.Time
 	var seen int64 = -1
@@ -1033,6 +1040,7 @@ func (r *real) Exec(line string) (out string) {
 			return "init-error " + err.Error()
 		}
 		r.kind = args[0]
+		r.settle()
 		return "ok"
 	}
 	if r.a == nil {
@@ -1154,6 +1162,9 @@ func (r *real) Exec(line string) (out string) {
 			return "err " + errClass(err)
 		}
 		r.watchers = append(r.watchers, w)
+		if r.kind == "prop2" {
+			r.settle()
+		}
 		r.waitQuiet()
 		return "ok"
 	case "stop":
@@ -1212,8 +1223,81 @@ func (r *real) Exec(line string) (out string) {
 		return r.raceCancel(n)
 	case "real.multival":
 		return r.multiVal()
+	case "real.regrace":
+		return regRace()
 	}
 	return "bad-op"
+}
+
+// settle: the Events() call of an atomix Map (a primitive partitioned over three partitions) returns when the
+// FIRST partition has acknowledged the listener; until the others have, writes to their keys are not delivered
+// (KF-C15-atomix-events-partial-registration, shown by store.real.regrace).  Stores register their dispatcher in
+// NewAtomixStore, the proposal store registers in every Watch.  Ordinary scripts wait this window out.
+func (r *real) settle() {
+	switch r.kind {
+	case "prop2", "cfg2", "cfg3":
+		time.Sleep(60 * time.Millisecond)
+	}
+}
+
+// regRace: proposal stores under CPU contention — create six proposals, Watch (no replay), update all six after
+// Watch has returned: does the watcher receive all six events?
+func regRace() string {
+	var missed int64
+	var wg sync.WaitGroup
+	stop := time.Now().Add(4 * time.Second)
+	for g := 0; g < 12; g++ {
+		wg.Add(1)
+		go func() {
+			defer wg.Done()
+			for time.Now().Before(stop) && atomic.LoadInt64(&missed) == 0 {
+				client := test.NewClient()
+				s, err := prop2.NewAtomixStore(client)
+				if err != nil {
+					client.Close()
+					continue
+				}
+				ctx := context.Background()
+				var ps []*configv2.Proposal
+				for _, id := range []string{"t1-1", "t1-2", "t2-1", "x", "y", "z"} {
+					p := &configv2.Proposal{ID: configv2.ProposalID(id), TargetID: "t", TransactionIndex: 1}
+					if s.Create(ctx, p) == nil {
+						ps = append(ps, p)
+					}
+				}
+				time.Sleep(60 * time.Millisecond)
+				wctx, cancel := context.WithCancel(ctx)
+				ch := make(chan configv2.ProposalEvent, 64)
+				if s.Watch(wctx, ch) == nil {
+					for _, p := range ps {
+						_ = s.UpdateStatus(ctx, p)
+					}
+					got := map[configv2.ProposalID]bool{}
+					deadline := time.After(2 * time.Second)
+				loop:
+					for len(got) < len(ps) {
+						select {
+						case e := <-ch:
+							got[e.Proposal.ID] = true
+						case <-deadline:
+							break loop
+						}
+					}
+					if len(got) < len(ps) {
+						atomic.AddInt64(&missed, 1)
+					}
+				}
+				cancel()
+				_ = s.Close(ctx)
+				client.Close()
+			}
+		}()
+	}
+	wg.Wait()
+	if missed > 0 {
+		return "missed"
+	}
+	return "ok"
 }
 
 func first(args []string) string {
